@@ -23,7 +23,7 @@ ASSUMPTIONS = ["Stop(Async)Iteration / IndexError are never injected (their mean
                "closing a faulted source is release, not use"]
 EXHAUSTIVE = {"quick": False, "thorough": False}
 
-N_SPECS = {"quick": 9000, "thorough": 150000}
+N_SPECS = {"quick": 40000, "thorough": 1500000}
 SRC_FL = ["async_class", "async_gen", "sync_iter", "sync_gen", "getitem_seq", "async_class_bare"]
 FN_FL = ["def", "async_def", "callobj", "partial", "awaitobj"]
 EXC = ["Injected", "TypeError", "ValueError", "LookupError", "InjectedBase", "RuntimeError", "AttributeError"]
